@@ -15,7 +15,7 @@ RULE = ("seeded district-heating loops (1-8 consumers in all five specification 
 ASSUMPTIONS = ["heat capacities come from the public Fluid API"]
 CONFIG = {"quick": {"shards": 8, "timeout_s": 600, "cases": 320},
           "thorough": {"shards": 16, "timeout_s": 3000, "cases": 8000}}
-REQUIRED_COUNTERS = ["runs_with_thermally_unsupplied_part", "transient_steps_monitored", "exchanger_duties", "exchanger_duties_negative", "exchanger_duties_reverse_flow", "consumer_duties_MF_DT_sequential",
+REQUIRED_COUNTERS = ["runs_with_return_admixing_at_the_pump", "circ_pump_own_duty_checks", "runs_with_thermally_unsupplied_part", "transient_steps_monitored", "exchanger_duties", "exchanger_duties_negative", "exchanger_duties_reverse_flow", "consumer_duties_MF_DT_sequential",
                      "consumer_duties_MF_TR_sequential", "consumer_duties_QE_MF_sequential",
                      "consumer_duties_QE_DT_bidirectional", "consumer_duties_QE_TR_bidirectional",
                      "consumer_setpoints_checked", "loop_closures"]
@@ -43,6 +43,12 @@ def make(case):
     for e in spec["elements"]:
         if e["kind"] == "heat_exchanger" and rng.random() < 0.4:
             e["from_junction"], e["to_junction"] = e["to_junction"], e["from_junction"]
+    pumps = [e for e in spec["elements"] if e["kind"].startswith("circ_pump")]
+    if pumps and rng.random() < 0.3:
+        # return admixing: a flow controller leads return water into the pump's flow junction (a second inflow at another temperature)
+        rj = [j["name"] for j in spec["junctions"] if j["name"].startswith("r")]
+        spec["elements"].append({"kind": "flow_control", "name": "admix", "from_junction": str(rng.choice(rj)), "to_junction": pumps[0]["flow_junction"],
+                                 "controlled_mdot_kg_per_s": float(rng.uniform(0.05, 0.4)), "control_active": True, "in_service": True})
     if rng.random() < 0.25:
         netgen.add_cold_line(spec, rng)      # hydraulically supplied, no temperature source: no part of the thermal calculation
     opts = {"use_numba": case["numba"], "iter": 200, "tol_p": 1e-10, "tol_m": 1e-10, "tol_res": 1e-9, "tol_T": 1e-9}
@@ -84,6 +90,8 @@ def run_case(case, ctx):
         mon_c11(net, obs, opts, case["mode"])
         if any(j["name"] == "c0" for j in spec["junctions"]):
             obs.count("runs_with_thermally_unsupplied_part")
+        if any(e["name"] == "admix" for e in spec["elements"]):
+            obs.count("runs_with_return_admixing_at_the_pump")
         n = sum(v for k, v in obs.counters.items() if k.startswith(("exchanger_duties", "consumer_duties")))
         rec["nontrivial"] = n >= 2
         if rec["nontrivial"]:
